@@ -557,3 +557,116 @@ def reloc_cases(r, d, targets, per_target=6):
                 out.append((",".join(["X%d:%s" % (dst, blk[:keep].hex()), "W%d:%d:%x" % (po, pw, fv), "W%d:%d:%x" % (fo, fw, nf & 0xffffffff),
                                       "W%d:%d:%x" % (no, nw, nn & 0xffffffff)]), "table@EOF:export+relations"))
     return out
+
+
+# ---------------------------------------------------------------------------------------------------------------------
+# .NET #Blob heap: signature blobs rewritten in place with crafted type encodings (ECMA-335 II.23.2)
+def _cint(v):
+    if v < 0x80: return bytes([v])
+    if v < 0x4000: return bytes([0x80 | (v >> 8), v & 0xff])
+    return bytes([0xC0 | ((v >> 24) & 0x1f), (v >> 16) & 0xff, (v >> 8) & 0xff, v & 0xff])
+
+
+def dotnet_blob_heap(d):
+    """-> (heap file offset, heap size, [(offset of length prefix, prefix size, blob length)]) or None"""
+    md = -1
+    pe = PEInfo(d)
+    if pe.ok:
+        for off, w, en, lab in pe.F:
+            if lab == "md.VersionLength":
+                md = off - 12
+    if md < 0:
+        md = d.find(b"BSJB")
+    if md < 0 or md + 20 > len(d):
+        return None
+    vl = u32(d, md + 12) or 0
+    p = md + 16 + vl + 2
+    ns = u16(d, p) or 0
+    p += 2
+    for _ in range(min(ns, 16)):
+        if p + 8 > len(d): return None
+        so, sz = u32(d, p), u32(d, p + 4)
+        q = p + 8
+        name = b""
+        while q < len(d) and d[q] != 0 and q - p < 40:
+            name += d[q:q + 1]; q += 1
+        q += 1
+        q = p + 8 + ((q - (p + 8) + 3) // 4) * 4
+        if name == b"#Blob":
+            h = md + so
+            if h + sz > len(d): sz = max(0, len(d) - h)
+            blobs, x = [], h + 1
+            while x < h + sz:
+                b0 = d[x]
+                if b0 & 0x80 == 0: L, hs = b0, 1
+                elif b0 & 0xC0 == 0x80 and x + 1 < h + sz: L, hs = ((b0 & 0x3f) << 8) | d[x + 1], 2
+                elif b0 & 0xE0 == 0xC0 and x + 3 < h + sz: L, hs = ((b0 & 0x1f) << 24) | (d[x + 1] << 16) | (d[x + 2] << 8) | d[x + 3], 4
+                else: break
+                if x + hs + L > h + sz: break
+                blobs.append((x, hs, L))
+                x += hs + L
+            return h, sz, blobs
+        p = q
+    return None
+
+
+def dotnet_signatures():
+    """crafted type encodings: general arrays with every relation of rank / NumSizes / NumLoBounds, deep nesting, generic instantiations,
+    compressed-integer boundary encodings, function pointers, custom modifiers"""
+    T = []
+    for rank in (0, 1, 2, 50, 51, 127, 128):
+        for ns in (0, 1, 2, 25, 50, 51):
+            for nl in (0, 1, 2, 2 * ns, 2 * ns + 1, 50, 51, 127):
+                if len(T) > 400: break
+                sizes = b"".join(_cint(3) for _ in range(ns))
+                los = bytes([0x7E]) * nl                      # non-zero signed compressed lower bounds
+                T.append(bytes([0x14, 0x08]) + _cint(rank) + _cint(ns) + sizes + _cint(nl) + los)
+    T += [bytes([0x14, 0x08]) + _cint(2) + _cint(0x3fff) + b"\x03" * 8, bytes([0x14, 0x08]) + _cint(2) + _cint(1) + b"\x03" + _cint(0x1fffffff) + b"\x7e" * 8,
+          bytes([0x14, 0x14, 0x08, 1, 0, 1, 0x7e, 1, 0, 1, 0x7e]), bytes([0x14, 0x1d, 0x08, 2, 0, 2, 2, 2])]
+    for k in (1, 15, 16, 17, 32, 64):
+        T += [bytes([0x0f]) * k + b"\x08", bytes([0x1d]) * k + b"\x0e", bytes([0x10]) + bytes([0x1d]) * k + b"\x1c", (bytes([0x14]) * k) + b"\x08" + b"\x01\x00\x00" * k]
+    for cnt in (0, 1, 2, 127, 128, 255, 0x3fff):
+        T.append(bytes([0x15, 0x12]) + _cint(0x49) + _cint(cnt) + b"\x08\x0e\x1c" * min(cnt, 8))
+        T.append(bytes([0x15, 0x11]) + _cint(0x1fffffff) + _cint(cnt) + b"\x08" * min(cnt, 4))
+    T += [bytes([0x15, 0x12, 0x49, 1]) * 20 + b"\x08", bytes([0x1b, 0x00, 0x01, 0x08, 0x08]), bytes([0x1b, 0x20, 0x7f]) + b"\x08" * 20, bytes([0x1b]) * 30,
+          bytes([0x13]) + _cint(0x1fffffff), bytes([0x1e]) + _cint(0x3fff), bytes([0x1f, 0x49, 0x20, 0x4d, 0x08]), bytes([0x1f]) * 20, bytes([0x12]) + b"\xff\xff\xff\xff",
+          bytes([0x11, 0xe0]), bytes([0x12, 0xc0]), bytes([0x12, 0x80]), b"\x16", b"\x41", b"\x45", b"\x00", b"\xff", bytes([0x14]), bytes([0x14, 0x08]), bytes([0x14, 0x08, 0x80])]
+    return T
+
+
+def dotnet_blob_cases(r, d, per_seed=60):
+    """-> [(ops, kind)]: a method / field / local / typespec signature blob overwritten (length prefix rewritten as well, the rest of the blob zero-padded)"""
+    H = dotnet_blob_heap(d)
+    if not H or not H[2]:
+        return []
+    h, sz, blobs = H
+    sigs = dotnet_signatures()
+    meth = [b for b in blobs if b[2] >= 3 and d[b[0] + b[1]] in (0x00, 0x20, 0x10, 0x30, 0x05, 0x25)]
+    other = [b for b in blobs if b[2] >= 2 and b not in meth]
+    out = []
+    for k in range(per_seed):
+        t = sigs[(k * 7 + r.randrange(len(sigs))) % len(sigs)] if k >= len(sigs) else sigs[r.randrange(len(sigs))]
+        form = r.choice(["ret", "param", "hasthis", "generic", "field", "typespec", "local", "prop"])
+        body = {"ret": b"\x00\x00" + t, "param": b"\x00\x01\x01" + t, "hasthis": b"\x20\x02\x08" + t + t, "generic": b"\x10\x01\x01\x01" + t, "field": b"\x06" + t,
+                "typespec": t, "local": b"\x07\x01" + t, "prop": b"\x28\x00" + t}[form]
+        pool = meth if (form in ("ret", "param", "hasthis", "generic") and meth) else (other or meth)
+        if not pool:
+            break
+        x, hs, L = r.choice(pool)
+        room = min(L, 4096)
+        if len(body) > room:
+            # grow the blob over its successors: rewrite the length prefix (same width when possible)
+            newL = len(body)
+            pre = _cint(newL)
+            if len(pre) != hs or x + hs + newL > h + sz:
+                body = body[:room]
+                pre = None
+        else:
+            pre = None
+            body = body + bytes(room - len(body)) if r.random() < 0.7 else body
+        ops = []
+        if pre:
+            ops.append("X%d:%s" % (x, pre.hex()))
+        ops.append("X%d:%s" % (x + hs, body.hex()))
+        out.append((",".join(ops), "dotnet-signature:" + form))
+    return out
